@@ -538,7 +538,10 @@ class Check:
                "level": self.level, "coverage": cov, "assumptions": self.assumptions,
                "wall_s": round(time.time() - self.t0, 2),
                "violations": len(self.viol)}
-        with open(os.path.join(EVIDENCE, self.prop + ".json"), "w") as f:
+        # a run against a scratch worktree (VERIF_REPO, seeded change) must not replace the evidence of /repo
+        evpath = os.path.join(EVIDENCE, self.prop + ".json") if REPO == "/repo" else os.path.join(BUILD, self.prop + ".scratch-evidence.json")
+        os.makedirs(os.path.dirname(evpath), exist_ok=True)
+        with open(evpath, "w") as f:
             json.dump(evd, f, indent=1, default=str)
         if rc == 0:
             print("OK property=%s tier=%s evaluations=%d nontrivial=%d states=%d wall=%.1fs" % (
